@@ -5,12 +5,37 @@ V = os.path.dirname(os.path.dirname(os.path.abspath(__file__)))
 
 TECH = 'bounded symbolic execution of the real maltoolbox modules with CrossHair 0.0.110 / z3: per-path SMT feasibility decisions over symbolic bool/int/real inputs, cube-split over 16 cores, "Confirmed over all paths" per cube; counterexamples replayed on the real code'
 
+def _c(text, note, ref):
+    return (text, note, ref)
+
+
 CLAIMED = {
- # id: (level text, level note, design ref)
- 'C11': ('Every compromise relation over 3 nodes x 2 attackers (built through the API) followed by every 1 (quick) / 2 (thorough) operations is executed symbolically on the real Attacker/AttackGraphNode/AttackGraph code and compared with a shadow relation; exhaustive within that bound.',
-         'Trusted: CrossHair/z3, the shadow-relation oracle (xh/h_c11.py). Outside: larger graphs, longer histories.', '4/C11'),
- 'C13': ('All labelled graphs of 3 nodes (types x symbolic flags x bounded edge sets) and, thorough, 4 nodes are pruned by the real code under symbolic execution; survivors, labels and C09 well-formedness are compared with the definition.',
-         'Trusted: CrossHair/z3, oracle in xh/h_c13.py and xh/g.py:wellformed. Outside: >4 nodes, edge sets above the cap.', '4/C13'),
+ 'C01': _c('Every link matrix over two relations on 2 assets and every bounded one on 3 assets (self-links, cycles, shared members) is decided by the solver; on each the real Model API builds the model, the real generator runs and the children/parents of every node are compared with a reference evaluator of MAL set semantics over ~40 catalogued expressions (transitive only bounded from both sides).',
+           'Trusted: CrossHair/z3, reference evaluator xh/langs.py:ev. After the link bits are decided all values are concrete, so the generator itself runs untraced on that path. Outside: >3 assets, expressions outside the catalogue.', '4/C01'),
+ 'C02': _c('For the inheritance language L_INH all type/defense/link picks of a 3-asset model and all name triples over 4 names are decided; node set, attributes, defense/existence status, id and full-name uniqueness and lookups are compared with the root-down fold of the specification.',
+           'Trusted: CrossHair/z3, xh/langs.py:ref_fold and ev. Names are picks (pjo rejects symbolic str).', '4/C02'),
+ 'C03': _c('All 256 override/extend/absent assignments over a 3-level inheritance tree x all histories of 2 (quick) / 3 (thorough) lookups, regenerations and attack-graph generations; after every step every type is compared with the fold and _lang_spec with its snapshot.',
+           'Trusted: CrossHair/z3, reference fold. Outside: deeper chains, several interacting redefined steps.', '4/C03'),
+ 'C05': _c('Inductive-step formulation: 64 API-built pre-states x every operation (valid and invalid arguments) of the Model/AttackerAttachment API, 1 step (quick) / 2 steps (thorough), compared after every step with an abstract reference model through _to_dict, lookups, back-references, neighbours and entry points.',
+           'Trusted: CrossHair/z3, abstract model in xh/h_c05.py. Universe of <= 4 assets of one type.', '4/C05'),
+ 'C06': _c('A fully symbolic float (all reals, +-inf) is pushed through the generated class\'s real validation: accepted iff in [0,1]; class exposure (assets, inherited defenses, defaults, duplicate-named associations) and association acceptance (type conformance, max multiplicity, repetition, existing link) are decided over all picks.',
+           'Trusted: CrossHair/z3; python_jsonschema_objects is executed, not specified; its min/max error-text formatting is stubbed. NaN outside.', '4/C06'),
+ 'C07': _c('All id/name/defense/extras/link/attacker picks of 2-3 asset L_INH models x {json, yml, yaml} are saved, loaded and compared typed and structurally, incl. re-saving; hand-written dicts in every asset order with id 0 and type-only shorthand.',
+           'Trusted: CrossHair/z3, json/yaml libraries. Names from 4 picks.', '4/C07'),
+ 'C08': _c('All labelled digraphs on 2 nodes (25 type vectors, self-loops, statuses, TTC kinds) and bounded families on 3 nodes are analysed by the real apriori code with symbolic defense/existence statuses and compared with the greatest fixed point computed by Kleene iteration; a second harness compares two storage orders of the same graph directly.',
+           'Trusted: CrossHair/z3, oracle gfp() in xh/h_c08.py. Outside: N>=4, composite TTC expressions.', '4/C08'),
+ 'C09': _c('All histories of 2 (quick) / 3 (thorough) operations over add/remove node, add/remove attacker, compromise/undo, analysis, prune, deepcopy, save/load (hand-built graph) and regenerate/attach/model edits (generated graph); well-formedness and lookups of all ids/names ever seen after every step; regenerate == fresh.',
+           'Trusted: CrossHair/z3, xh/g.py:wellformed.', '4/C09'),
+ 'C10': _c('Hand-built graphs with attribute picks, symbolic flags, two attackers, optional pruning and a generated graph (with/without model) are saved as json/yml/yaml, loaded and compared field by field with types.',
+           'Trusted: CrossHair/z3, json/yaml libraries. One known finding (attackers keyed by name) is excluded by predicate and reported.', '4/C10'),
+ 'C11': _c('Every compromise relation over 3 nodes x 2 attackers (built through the API) followed by every 1 (quick) / 2 (thorough) operations is executed symbolically on the real Attacker/AttackGraphNode/AttackGraph code and compared with a shadow relation; exhaustive within that bound.',
+           'Trusted: CrossHair/z3, the shadow-relation oracle (xh/h_c11.py). Outside: larger graphs, longer histories.', '4/C11'),
+ 'C12': _c('Traversability: one node of every type with symbolic viability and k<=3/4 parents with symbolic necessity/compromise bits (covers graphs of any size if the function reads only node+parents, which the global harness checks); surface, incremental update and graph immutability on all 2-node (3-node thorough) graphs; defense surface with symbolic real status.',
+           'Trusted: CrossHair/z3, the definitional oracle in xh/h_c12.py.', '4/C12'),
+ 'C13': _c('All labelled graphs of 3 nodes (types x symbolic flags x bounded edge sets) and, thorough, 4 nodes are pruned by the real code under symbolic execution; survivors, labels and C09 well-formedness are compared with the definition; one attacker variant.',
+           'Trusted: CrossHair/z3, oracle in xh/h_c13.py and xh/g.py:wellformed. Outside: >4 nodes, edge sets above the cap.', '4/C13'),
+ 'C14': _c('Deep copies of 2-node (3-node thorough) graphs with every tag/extras/TTC pick, edges and attackers are compared (serialisation, counters, lookups) and walked by identity for shared mutable data; 14 mutations (sequences of 2 thorough) on either side must stay invisible in the other graph.',
+           'Trusted: CrossHair/z3, identity walk in xh/h_c14.py.', '4/C14'),
 }
 NOT_APPLICABLE = {}
 
